@@ -459,6 +459,9 @@ func genV0Tx(r *Rng) *transaction.Transaction {
 		if r.Chance(35) {
 			in.Issuance = &transaction.TxIssuance{AssetBlindingNonce: make([]byte, 32), AssetEntropy: r.Bytes(32),
 				AssetAmount: []byte{1, 0, 0, 0, 0, 0, 0, 0, 9}, TokenAmount: []byte{0}}
+			if r.Chance(40) { // a reissuance: non-zero blinding nonce
+				in.Issuance.AssetBlindingNonce = r.Bytes(32)
+			}
 		}
 		tx.Inputs = append(tx.Inputs, in)
 	}
@@ -493,49 +496,107 @@ func issStrTok(s string) string {
 	return s
 }
 
+// one AddIssuance step: "add" + arguments
+func genV0AddStep(r *Rng, b *sb) {
+	b.add("add")
+	prec, c, asset, token, aa, ta, bl := genIssArgs(r)
+	writeIssArgs(b, prec, c, asset, token, aa, ta, bl)
+}
+
+// one AddReissuance step: "re" utxo_ok hash-string hash-decoded index blinder entropy-string entropy-decoded asset token aaddr taddr
+func genV0ReStep(r *Rng, b *sb) {
+	b.add("re")
+	b.add(b2s(!r.Chance(6)))
+	hs, hd := issHexStrMaybe(r, 32)
+	b.add(issStrTok(hs))
+	b.add(issOptTok(hd))
+	b.addn(uint64(issGenIndex(r)))
+	bl := r.Bytes(32)
+	if r.Chance(5) {
+		bl = r.Bytes(r.Pick(0, 31, 33))
+	}
+	b.addh(bl)
+	es, ed := issHexStrMaybe(r, 32)
+	b.add(issStrTok(es))
+	b.add(issOptTok(ed))
+	asset, token := issGenAmount(r), issGenAmount(r)
+	if r.Chance(70) {
+		asset |= 1
+		token |= 1
+	}
+	b.addn(asset)
+	b.addn(token)
+	conf := !r.Chance(8)
+	tconf := !r.Chance(8)
+	issWriteAddr(b, issGenAddrMaybe(r, conf))
+	issWriteAddr(b, issGenAddrMaybe(r, tconf))
+}
+
+// issv0 <op> <nin> <nout> <tx> <args>: one call
 func genIssV0Cases(r *Rng, n int, w *bufio.Writer) {
 	for i := 0; i < n; i++ {
-		var b sb
+		var b, st sb
 		tx := genV0Tx(r)
 		if i%3 != 2 {
-			b.add("add")
-			b.addn(uint64(len(tx.Inputs)))
-			b.addn(uint64(len(tx.Outputs)))
-			writeTx(&b, tx)
-			prec, c, asset, token, aa, ta, bl := genIssArgs(r)
-			writeIssArgs(&b, prec, c, asset, token, aa, ta, bl)
+			genV0AddStep(r, &st)
 		} else {
-			b.add("re")
-			b.addn(uint64(len(tx.Inputs)))
-			b.addn(uint64(len(tx.Outputs)))
-			writeTx(&b, tx)
-			// utxo_ok hash-string hash-decoded index blinder entropy-string entropy-decoded asset token aaddr taddr
-			b.add(b2s(!r.Chance(6)))
-			hs, hd := issHexStrMaybe(r, 32)
-			b.add(issStrTok(hs))
-			b.add(issOptTok(hd))
-			b.addn(uint64(issGenIndex(r)))
-			bl := r.Bytes(32)
-			if r.Chance(5) {
-				bl = r.Bytes(r.Pick(0, 31, 33))
-			}
-			b.addh(bl)
-			es, ed := issHexStrMaybe(r, 32)
-			b.add(issStrTok(es))
-			b.add(issOptTok(ed))
-			asset, token := issGenAmount(r), issGenAmount(r)
-			if r.Chance(70) {
-				asset |= 1
-				token |= 1
-			}
-			b.addn(asset)
-			b.addn(token)
-			conf := !r.Chance(8)
-			tconf := !r.Chance(8)
-			issWriteAddr(&b, issGenAddrMaybe(r, conf))
-			issWriteAddr(&b, issGenAddrMaybe(r, tconf))
+			genV0ReStep(r, &st)
 		}
-		fmt.Fprintf(w, "issv0 %s\n", strings.TrimSpace(b.String()))
+		toks := strings.SplitN(strings.TrimSpace(st.String()), " ", 2)
+		b.add(toks[0])
+		b.addn(uint64(len(tx.Inputs)))
+		b.addn(uint64(len(tx.Outputs)))
+		writeTx(&b, tx)
+		fmt.Fprintf(w, "issv0 %s %s\n", strings.TrimSpace(b.String()), toks[1])
+	}
+}
+
+// issh0 <nin> <nout> <tx> <nsteps> {add <args> | re <args>}...: a history of calls on one updater.
+// Packets have 1..4 inputs, few of them issuing already; 2..5 steps, so that histories run into the
+// state where every input (the ones AddReissuance appended included) carries an issuance.
+func genIssH0Cases(r *Rng, n int, w *bufio.Writer) {
+	for i := 0; i < n; i++ {
+		var b sb
+		tx := &transaction.Transaction{Version: 2}
+		nin := r.Pick(1, 1, 2, 2, 3, 4)
+		for k := 0; k < nin; k++ {
+			in := transaction.NewTxInput(r.Bytes(32), issGenIndex(r))
+			if r.Chance(15) {
+				in.Issuance = &transaction.TxIssuance{AssetBlindingNonce: make([]byte, 32), AssetEntropy: r.Bytes(32),
+					AssetAmount: []byte{1, 0, 0, 0, 0, 0, 0, 0, 9}, TokenAmount: []byte{0}}
+				if r.Bool() {
+					in.Issuance.AssetBlindingNonce = r.Bytes(32)
+				}
+			}
+			tx.Inputs = append(tx.Inputs, in)
+		}
+		for k := r.Intn(2); k > 0; k-- {
+			tx.Outputs = append(tx.Outputs, transaction.NewTxOutput(append([]byte{1}, r.Bytes(32)...),
+				[]byte{1, 0, 0, 0, 0, 0, 0, 3, 232}, r.Bytes(22)))
+		}
+		b.addn(uint64(len(tx.Inputs)))
+		b.addn(uint64(len(tx.Outputs)))
+		writeTx(&b, tx)
+		steps := 2 + r.Intn(4)
+		if i%4 == 0 { // the shape of the classic overwrite: reissuance first, then more issuances than free inputs
+			steps = nin + 2
+			if steps > 5 {
+				steps = 5
+			}
+		}
+		b.addn(uint64(steps))
+		for k := 0; k < steps; k++ {
+			re := r.Chance(30)
+			if i%4 == 0 {
+				re = k == 0
+			}
+			if re {
+				genV0ReStep(r, &b)
+			} else {
+				genV0AddStep(r, &b)
+			}
+		}
+		fmt.Fprintf(w, "issh0 %s\n", strings.TrimSpace(b.String()))
 	}
 }
 
@@ -553,10 +614,16 @@ func issConfUtxo() *transaction.TxOutput {
 }
 
 func readV0Case(t *Toks) *v0Case {
-	c := &v0Case{op: t.Next()}
+	op := t.Next()
 	nin, nout := t.Int(), t.Int()
 	tx := readTx(t)
-	c.p = &pset.Pset{UnsignedTx: tx, Inputs: make([]pset.PInput, nin), Outputs: make([]pset.POutput, nout)}
+	p := &pset.Pset{UnsignedTx: tx, Inputs: make([]pset.PInput, nin), Outputs: make([]pset.POutput, nout)}
+	return readV0Step(t, op, p)
+}
+
+// arguments of one step (the op token has been read) on packet p
+func readV0Step(t *Toks, op string, p *pset.Pset) *v0Case {
+	c := &v0Case{op: op, p: p}
 	if c.op == "add" {
 		c.args = readIssArgs(t)
 	} else {
@@ -582,6 +649,32 @@ func readV0Case(t *Toks) *v0Case {
 		}
 	}
 	return c
+}
+
+// issh0: the packet and the steps of a history
+func readV0History(t *Toks) (*pset.Pset, []*v0Case) {
+	nin, nout := t.Int(), t.Int()
+	tx := readTx(t)
+	p := &pset.Pset{UnsignedTx: tx, Inputs: make([]pset.PInput, nin), Outputs: make([]pset.POutput, nout)}
+	n := t.Int()
+	var steps []*v0Case
+	for i := 0; i < n; i++ {
+		steps = append(steps, readV0Step(t, t.Next(), p))
+	}
+	return p, steps
+}
+
+func runIssH0(t *Toks) string {
+	p, steps := readV0History(t)
+	var out []string
+	for i, c := range steps {
+		res := "ok"
+		if err := c.call(); err != nil {
+			res = "err"
+		}
+		out = append(out, fmt.Sprintf("r%d=%s n%d=%d/%d t%d=%s", i+1, res, i+1, len(p.Inputs), len(p.Outputs), i+1, dumpTx(p.UnsignedTx)))
+	}
+	return strings.Join(out, " ")
 }
 
 func (c *v0Case) call() error {
@@ -725,6 +818,63 @@ func genIssV2Cases(r *Rng, n int, w *bufio.Writer) {
 	}
 }
 
+// one AddInIssuance / AddInReissuance step: op, target index, arguments
+func genV2Step(r *Rng, b *sb, op string, nin int) {
+	b.add(op)
+	idx := 0
+	if nin > 0 {
+		idx = r.Intn(nin)
+	}
+	if r.Chance(8) {
+		idx = r.Pick(-1, nin, nin+1)
+	}
+	b.add(strconv.Itoa(idx))
+	if op == "add" {
+		prec, c, asset, token, aa, ta, bl := genIssArgs(r)
+		writeIssArgs(b, prec, c, asset, token, aa, ta, bl)
+		return
+	}
+	bl := r.Bytes(32)
+	switch r.Intn(20) {
+	case 0:
+		bl = make([]byte, 32)
+	case 1:
+		bl = r.Bytes(r.Pick(0, 31, 33))
+	}
+	b.addh(bl)
+	es, ed := issHexStrMaybe(r, 32)
+	b.add(issStrTok(es))
+	b.add(issOptTok(ed))
+	asset, token := issGenAmount(r), issGenAmount(r)
+	if r.Chance(70) {
+		asset |= 1
+		token |= 1
+	}
+	b.addn(asset)
+	b.addn(token)
+	issWriteAddr(b, issGenAddrMaybe(r, r.Bool()))
+	issWriteAddr(b, issGenAddrMaybe(r, r.Bool()))
+}
+
+// issh2 <pkt> <nsteps> {add|re <idx> <args>}...: a history of calls on one psetv2 updater; the
+// target indexes repeat, so that later steps meet inputs that already issue
+func genIssH2Cases(r *Rng, n int, w *bufio.Writer) {
+	for i := 0; i < n; i++ {
+		var b sb
+		nin := genV2Pkt(r, &b)
+		steps := 2 + r.Intn(4)
+		b.addn(uint64(steps))
+		for k := 0; k < steps; k++ {
+			op := "add"
+			if r.Chance(35) {
+				op = "re"
+			}
+			genV2Step(r, &b, op, nin)
+		}
+		fmt.Fprintf(w, "issh2 %s\n", strings.TrimSpace(b.String()))
+	}
+}
+
 type v2Case struct {
 	op   string
 	p    *psetv2.Pset
@@ -829,8 +979,14 @@ func writeV2Pkt(b *sb, p *psetv2.Pset) {
 }
 
 func readV2Case(t *Toks) *v2Case {
-	c := &v2Case{op: t.Next()}
-	c.p = readV2Pkt(t)
+	op := t.Next()
+	p := readV2Pkt(t)
+	return readV2Step(t, op, p)
+}
+
+// index and arguments of one step (the op token has been read) on packet p
+func readV2Step(t *Toks, op string, p *psetv2.Pset) *v2Case {
+	c := &v2Case{op: op, p: p}
 	c.idx = t.Int()
 	if c.op == "add" {
 		c.args = readIssArgs(t)
@@ -847,6 +1003,32 @@ func readV2Case(t *Toks) *v2Case {
 			AssetAddress: aa.s, TokenAddress: ta.s}
 	}
 	return c
+}
+
+func readV2History(t *Toks) (*psetv2.Pset, []*v2Case) {
+	p := readV2Pkt(t)
+	n := t.Int()
+	var steps []*v2Case
+	for i := 0; i < n; i++ {
+		steps = append(steps, readV2Step(t, t.Next(), p))
+	}
+	return p, steps
+}
+
+func runIssH2(t *Toks) string {
+	p, steps := readV2History(t)
+	var out []string
+	for i, c := range steps {
+		res := "ok"
+		if err := c.call(); err != nil {
+			res = "err"
+		}
+		var b sb
+		writeV2Pkt(&b, p)
+		utx, ext, get := v2Views(p)
+		out = append(out, fmt.Sprintf("r%d=%s p%d=%s u%d=%s e%d=%s g%d=%s", i+1, res, i+1, b.commas(), i+1, utx, i+1, ext, i+1, get))
+	}
+	return strings.Join(out, " ")
 }
 
 func (c *v2Case) call() error {
@@ -930,6 +1112,10 @@ func init() {
 	gens["isscon"] = genIssConCases
 	gens["issv0"] = genIssV0Cases
 	gens["issv2"] = genIssV2Cases
+	gens["issh0"] = genIssH0Cases
+	gens["issh2"] = genIssH2Cases
+	runs["issh0"] = runIssH0
+	runs["issh2"] = runIssH2
 	runs["issid"] = runIssID
 	runs["issmid"] = runIssMid
 	runs["isscon"] = runIssCon
